@@ -121,6 +121,32 @@ Lemma chunks_full (k : nat) (l : list A) :
   1 <= k -> Forall (fun c => length c = k) (removelast (chunks k l)).
 Proof. intros Hk. unfold chunks. apply chunks_fuel_full; [exact Hk|apply le_n]. Qed.
 
+(* the number of chunks (= calls of the function) is exactly ceil(len / k) *)
+Lemma chunks_fuel_count (fuel k : nat) (l : list A) :
+  1 <= k -> length l <= fuel -> l <> [] ->
+  (length (chunks_fuel fuel k l) - 1) * k < length l <= length (chunks_fuel fuel k l) * k.
+Proof.
+  intros Hk; revert l; induction fuel as [|f IH]; intros l Hl Hne.
+  - destruct l; [contradiction|cbn in Hl; lia].
+  - cbn [chunks_fuel]. destruct (Nat.leb_spec (length l) k) as [Hle|Hgt].
+    + cbn [length]. destruct l; [contradiction|cbn [length] in *; lia].
+    + cbn [length].
+      assert (Hsk : length (skipn k l) = length l - k) by apply skipn_length.
+      assert (Hne' : skipn k l <> []).
+      { intros E. rewrite E in Hsk. cbn in Hsk. lia. }
+      specialize (IH (skipn k l) ltac:(lia) Hne').
+      set (n := length (chunks_fuel f k (skipn k l))) in *.
+      rewrite Hsk in IH.
+      destruct n as [|n]; [lia|].
+      replace (S (S n) - 1) with (S n) by lia.
+      replace (S n - 1) with n in IH by lia.
+      nia.
+Qed.
+
+Lemma chunks_count (k : nat) (l : list A) : 1 <= k -> l <> [] ->
+  (length (chunks k l) - 1) * k < length l <= length (chunks k l) * k.
+Proof. intros Hk Hne. unfold chunks. apply chunks_fuel_count; [exact Hk|apply le_n|exact Hne]. Qed.
+
 (* the pieces of a split by count have exactly the sizes numpy documents *)
 Lemma take_sizes_shape (sizes : list nat) (l : list A) :
   list_sum sizes <= length l -> map (@length A) (take_sizes sizes l) = sizes.
